@@ -41,6 +41,10 @@ package restful
 //@ ensures zero: !matches ==> paramCount == 0 && staticCount == 0
 //@ nopanic
 //@ modifies nothing
+//@ opt tokens.routeTokens ["a","{v}","{v}.x","{v:*}","{v:b*}","a:go","{v}:go"]
+//@ opt maxlen.routeTokens 2
+//@ opt tokens.requestTokens ["a","b","bb.x","x","a:go","b:go"]
+//@ opt maxlen.requestTokens 3
 //@ loop 0 invariant bound: it_i <= len(requestTokens)
 //@ loop 0 invariant admitted: forall(0, it_i, func(k int) bool { return tokAdmits(routeTokens[k], requestTokens[k], routeHasCustomVerb) && !isTailTok(effTok(routeTokens[k], routeHasCustomVerb)) })
 //@ loop 0 invariant counts: staticCount == countStatic(routeTokens, it_i, routeHasCustomVerb) && paramCount == countParams(routeTokens, it_i, routeHasCustomVerb)
